@@ -20,4 +20,5 @@ var (
 	ErrNotFound       = errors.New("key not found")
 	ErrSetFailed      = errors.New("failed to set data")
 	ErrExceedGasLimit = errors.New("gas exceeds limit")
+	ErrReservedValue  = errors.New("value is reserved for pending deletes")
 )
